@@ -54,10 +54,17 @@ RULE = ("pipelines from harness/mapgen.py (1-4 functions: element-wise/zip, oute
         "AXIS-1 (round 9): a family of pipelines whose ':'-sliced axis has length 1 (outer product reduced along either axis, internal axis of length 1, "
         "tuple output) under dict / file_array / shared_memory_dict and per-output overrides of the producer; COUNTS (round 9): per replayed run the "
         "number of invocations per function and of futures per (function, index) against callCount / demanded / taskCount of the Lean model; "
+        "GATE (round 10): per pipeline one run (thorough: two) under a real thread pool with one worker per task of the largest generation (<= 8) in which "
+        "every worker is held inside the write step of its dump (scratch file open / written, not yet renamed) until all writers of the wave are there, "
+        "storage file_array and mixes keeping a file array, map and map_async; a SIBLINGS family (two or more mapped functions in one generation with "
+        "common linear indices: element-wise pair, outer products, different ranks, tuple output beside single ones, second generation, internal axis) "
+        "under the GATE stream only; judged by the same clauses (results, stored data, call multiset, barrier, single dump); "
         "non-trivial = some generation submits >= 2 tasks; distinct by (pipeline, inputs, configuration / history, schedule)")
 ASSUMPTIONS = ["interleavings *inside* a task body (two workers inside cloudpickle.dump, Manager proxy round-trips, os.listdir racing a write) "
                "are exercised by the real pools but not modelled: the theorem covers every interleaving at the granularity of task bodies "
-               "and parent-side processing",
+               "and parent-side processing; since round 10 the GATE stream DRIVES one extremal interleaving inside file dumps of thread pools (all "
+               "writers of a wave have their scratch file open before any writes, all have written before any renames) by wrapping "
+               "`cloudpickle.dump` in the harness process — still not modelled; process pools and Manager proxies are not gated",
                "NumPy object-array indexing, cloudpickle, concurrent.futures and asyncio are specified by the model, not verified",
                "the order of functions inside a generation is not compared (only the set), schedules are transported by task label",
                "dump events are observed by wrapping DictArray.dump / FileArray.dump in the harness process (inherited by forked workers)",
@@ -255,6 +262,7 @@ def run_impl(desc, cfg, base, built=None, folder=None):
     core = px.PermCore(choose, debounce=0.03 if cfg["entry"] == "async" else 2.0, wait=cfg.get("timeout", 20))
     record: list = []
     ex, pools = make_executors(desc, cfg, core, record)
+    gate = px.DumpGate(cfg.get("workers", 3), **cfg["gate"]) if cfg.get("gate") else None      # owner = this (the parent) thread
     kw = dict(run_folder=folder, internal_shapes=mapgen.internal_shapes_arg(desc), executor=ex, storage=storage_arg(desc, cfg))
     if "fixed" in cfg or not cfg.get("cleanup", True):
         kw.update(fixed_indices=fixed_py(cfg.get("fixed")), cleanup=cfg.get("cleanup", True))
@@ -262,6 +270,7 @@ def run_impl(desc, cfg, base, built=None, folder=None):
 
     def go():
         _DUMP.update(path=dump_path, ppid=os.getpid(), ptid=threading.get_ident())
+        px.GATE["gate"] = gate
         if cfg["entry"] == "map":
             return mapgen.quiet(p.map, inputs, parallel=True, **kw)
 
@@ -306,6 +315,10 @@ def run_impl(desc, cfg, base, built=None, folder=None):
         px.close_core(core)
         sys.stdout, sys.stderr = saved_streams       # a hung run never leaves `redirect_stdout`
         _DUMP["path"] = None
+        px.GATE["gate"] = None
+        if gate is not None:
+            gate.close()
+            obs["gate"] = gate.summary()
         obs["schedule"] = [{"labels": b["labels"], "order": b["order"], "tags": b["tags"]} for b in core.batches]
         obs["order_mismatch"] = mism
         obs["submitted_during_flush"] = core.submitted_during_flush
@@ -335,6 +348,9 @@ def run_impl(desc, cfg, base, built=None, folder=None):
         return obs
     finally:
         _DUMP["path"] = None
+        px.GATE["gate"] = None
+        if gate is not None:
+            gate.close()
         for q in pools:                   # join the workers: lingering threads make later forks (process pools, Managers) hazardous
             try:
                 q.shutdown(wait=True, cancel_futures=True)
@@ -360,6 +376,8 @@ def judge(ctx, desc, cfg, obs, model):
     ctx.count("run:" + cfg_key(cfg))
     if cfg.get("matrix"):
         ctx.count("matrix-cell")
+    if cfg.get("gate"):
+        ctx.count("gate-run:" + cfg["entry"] + "/" + storage_key(cfg) + ("/siblings" if cfg.get("siblings") else ""))
     if cfg.get("axis1"):
         ctx.count("axis1-storage:" + (storage_key(cfg) if isinstance(cfg["storage"], str) else "override:" + "+".join(f"{k or 'default'}={v}" for k, v in sorted(cfg["storage"].items()))))
     ctx.count("storage:" + storage_key(cfg) + ("" if cfg.get("folder", True) else "/no-folder"))
@@ -423,6 +441,13 @@ def judge(ctx, desc, cfg, obs, model):
         ctx.violation(case, "tasks were submitted while bodies of the previous batch were still running (no barrier at the executor)",
                       found_input=False, item="correspondence:barrier-submit")
         return False
+    if cfg.get("gate"):
+        g = obs.get("gate") or {"waves": 0, "max": 0, "shared": []}
+        ctx.count(f"gate:writers-held-together:{min(g['max'], 9)}")
+        if g["shared"]:
+            ctx.violation(case, f"two writers that were inside a dump at the same time had the SAME scratch file open ({g['shared'][:3]}); results and stored "
+                          "data were right in this run", found_input=False, item="correspondence:scratch-file-shared", impl={"gate": g})
+            return False
     return True
 
 
@@ -1146,6 +1171,48 @@ def axis1_cfgs(rng, desc, sizes, thorough, slot):
     return cfgs
 
 
+def siblings_family():
+    """Pipelines in which one GENERATION holds two or more mapped functions whose outputs have common linear indices (seeded change
+    C03-s5-A: the scratch file of a dump was shared by index i of all outputs of a run folder): the writers of `y0[i]` and `y1[i]`
+    may be inside their dumps at the same moment."""
+    z = {"input_kinds": {"x0": "list", "x1": "array"}, "internal": []}
+    out = [dict(_chain(), siblings="chain3")]
+    out.append(dict(z, funcs=[_fn("f0", [("x0", ["i"]), ("x1", ["j"])], [("y0", ["i", "j"])]), _fn("f1", [("x0", ["i"]), ("x1", ["j"])], [("y1", ["i", "j"])]),
+                              _fn("f2", [("y0", ["i", "j"]), ("y1", ["i", "j"])], [("y2", ["i", "j"])])],
+                    inputs=[_root("x0", [2]), _root("x1", [2])], sizes={"i": 2, "j": 2, "k": 1}, siblings="outer2x2"))
+    out.append(dict(z, funcs=[_fn("f0", [("x0", ["i"])], [("y0", ["i"])]), _fn("f1", [("x0", ["i"]), ("x1", ["j"])], [("y1", ["i", "j"])]),
+                              _fn("f2", [("y0", ["i"]), ("y1", ["i", None])], [("y2", ["i"])])],
+                    inputs=[_root("x0", [2]), _root("x1", [2])], sizes={"i": 2, "j": 2, "k": 1}, siblings="shapes-differ"))
+    out.append(dict(z, funcs=[_fn("f0", [("x0", ["i"])], [("y0a", ["i"]), ("y0b", ["i"])]), _fn("f1", [("x0", ["i"])], [("y1", ["i"])]),
+                              _fn("f2", [("x0", ["i"])], [("y2", ["i"])]),
+                              _fn("f3", [("y0a", ["i"]), ("y0b", ["i"]), ("y1", ["i"]), ("y2", ["i"])], [("y3", ["i"])])],
+                    inputs=[_root("x0", [2])], sizes={"i": 2, "j": 1, "k": 1}, siblings="tuple+two"))
+    out.append(dict(z, funcs=[_fn("f0", [("x0", ["i"])], [("y0", ["i"])]), _fn("f1", [("y0", ["i"])], [("y1", ["i"])]), _fn("f2", [("y0", ["i"])], [("y2", ["i"])]),
+                              _fn("f3", [("y1", ["i"]), ("y2", ["i"])], [("y3", ["i"])])],
+                    inputs=[_root("x0", [3])], sizes={"i": 3, "j": 1, "k": 1}, siblings="second-generation"))
+    out.append(dict(z, funcs=[_fn("f0", [("x0", ["i"])], [("y0", ["i", "k"])], ret=[2], internal=[2]), _fn("f1", [("x0", ["i"])], [("y1", ["i"])]),
+                              _fn("f2", [("y0", ["i", None]), ("y1", ["i"])], [("y2", ["i"])])],
+                    inputs=[_root("x0", [3])], sizes={"i": 3, "j": 1, "k": 2}, siblings="internal+plain"))
+    return out
+
+
+def gate_cfgs(rng, desc, sizes, n, siblings=False, k0=0):
+    """GATE stream (round 10): a real THREAD pool with as many workers as the largest generation has tasks (at most 8), no delays in
+    the user functions; instead every worker is held inside the write step of its dump until all writers of the wave are there
+    (c03_permexec.DumpGate): all tasks of a generation complete — and write — at the same moment.  Storage: file_array for every
+    output, then mixes that keep a file array; map and map_async."""
+    names = [f["name"] for f in desc["funcs"]]
+    out = []
+    for k in range(k0, k0 + n):
+        st = "file_array" if k % 2 == 0 else {"": "file_array", rng.choice(names): rng.choice(["dict", "file_array"])}
+        cfg = {"kinds": {"": "thread"}, "entry": "async" if k % 3 == 2 or (k == 1 and rng.random() < 0.5) else "map", "storage": st, "folder": True,
+               "workers": max(2, min(max(sizes), 8)), "gate": {"quiet": 0.02}}
+        if siblings:
+            cfg["siblings"] = True
+        out.append(cfg)
+    return out
+
+
 # (desc, cfg) pairs: the prototype pipeline under an interleaved reversed schedule with one executor per output and mixed
 # storages; past failures are appended here
 CORPUS: list = [(_chain(), {"kinds": {"f0": "perm", "f1": "perm", "f2": "perm"}, "entry": "map", "storage": {"": "dict", "f1": "file_array"},
@@ -1155,7 +1222,9 @@ CORPUS: list = [(_chain(), {"kinds": {"f0": "perm", "f1": "perm", "f2": "perm"},
                 # round 9: `y0[i, :] -> y1[i]` over an axis of length 1, producer in a dict (seeded change C03-s4-B), globally and as a per-output override
                 (axis1_family()[0], {"kinds": {"": "perm"}, "entry": "map", "storage": "dict", "folder": True, "orders": [[2, 0, 1], [1, 2, 0]]}),
                 (axis1_family()[0], {"kinds": {"": "perm"}, "entry": "async", "storage": {"": "file_array", "f0": "dict"}, "folder": True,
-                                     "orders": [[0, 2, 1], [2, 1, 0]]})]
+                                     "orders": [[0, 2, 1], [2, 1, 0]]}),
+                # round 10: f0 and f1 of one generation write y0[i] and y1[i] at the same moment (seeded change C03-s5-A)
+                (_chain(), {"kinds": {"": "thread"}, "entry": "map", "storage": "file_array", "folder": True, "workers": 6, "gate": {"quiet": 0.02}})]
 
 
 MALFORMED = ["seq+executor", "seq+dict", "seq+empty-dict", "par+empty-dict", "no-default", "no-default", "tuple-part-key", "tuple-part-key"]
@@ -1310,6 +1379,7 @@ def run(ctx):
     rng = ctx.rng
     thorough = ctx.tier == "thorough"
     _install_dump_hook()
+    px.install_gate_hook()
     EXEC_JOBS.clear()
     MATRIX_DONE[0] = 0
     base = tempfile.mkdtemp(prefix="verif-c03-", dir=scratch_root())
@@ -1326,6 +1396,9 @@ def run(ctx):
         fam = axis1_family()                       # round 9: a ':'-sliced axis of length 1 under every storage backend
         axis1_from = len(descs)
         descs += fam if thorough else rng.sample(fam, 2)
+        sfam = siblings_family()                   # round 10: two mapped functions of one generation writing the same index together
+        sib_from = len(descs)
+        descs += sfam if thorough else rng.sample(sfam, 3)
         hist_descs = [copy.deepcopy(d) for d, _ in HISTORY_CORPUS]
         for _ in range(ctx.n(N_HIST_QUICK, 120)):
             while True:
@@ -1349,6 +1422,15 @@ def run(ctx):
             cfgs = []
             if di < ncorp:
                 cfgs.append(copy.deepcopy(CORPUS[di][1]))
+            if di >= sib_from:                # the siblings family runs under the GATE stream only
+                ctx.count("siblings:" + desc["siblings"])
+                built = Built(desc)
+                for cfg in gate_cfgs(rng, desc, sizes, 4 if thorough else 2, siblings=True):
+                    if hangs < 3:
+                        obs = run_impl(desc, cfg, base, built)
+                        hangs += bool(obs.get("hang"))
+                        judge(ctx, desc, cfg, obs, model)
+                continue
             if di >= axis1_from:
                 ctx.count("axis1:" + desc["axis1"].split("/")[0].rstrip("0123456789x"))
                 cfgs += axis1_cfgs(rng, desc, sizes, thorough, di - axis1_from)
@@ -1374,6 +1456,7 @@ def run(ctx):
                 cfgs.append({"kinds": split_kinds(rng, desc, "thread", "thread") if k % 3 == 2 else {"": "thread"},
                              "entry": "async" if (k % 4 == 3 or (k == 1 and di % 3 == 0)) else "map", "storage": storages_for(rng, desc, k, thorough), "folder": True,
                              "workers": rng.randint(2, 5), "delay": rng.randrange(10**6)})
+            cfgs += gate_cfgs(rng, desc, sizes, 2 if thorough else 1, k0=di)
             cfgs += process_cfgs(rng, desc, di, thorough)
             if not thorough:                      # quick: `load_outputs` (a full RunInfo.load) on every third run only
                 for k, cfg in enumerate(cfgs):
@@ -1459,6 +1542,7 @@ def run(ctx):
 
 def replay(ctx, case):
     _install_dump_hook()
+    px.install_gate_hook()
     base = tempfile.mkdtemp(prefix="verif-c03-", dir=scratch_root())
     try:
         model = model_obs(ctx.lean([{"m": "map.run", "a": mapgen.model_request(case["desc"])}], driver="C01")[0]["r"])
